@@ -50,7 +50,7 @@ PROPS["C18"] = {
 }
 PROPS["C12"] = {
     "sidecars": ["c12_convert.py", "c18_history_io.py"],
-    "level": "proof",
+    "level": "other",
     "claim": "Proof level for the change<->data conversion: each convertX / makeX pair of ChangeToData / DataToChange satisfies its contract (constructors "
              "executed from their real bodies), the four round-trip lemmas follow from the contracts alone, History.write saves the element-wise "
              "conversion in a two-list shape and History._load_history rebuilds both lists element-wise in order (loop invariants) -- for every history. "
@@ -61,7 +61,7 @@ PROPS["C12"] = {
 }
 PROPS["C16"] = {
     "sidecars": ["c16_bytes.py", "c16_decode.py"],
-    "level": "proof",
+    "level": "other",
     "claim": "Proof level for the codec/newline selection logic: unicode_to_file_data writes the text with the file's newline convention in the declared "
              "(cookie) encoding, else UTF-8, and reports (never silently replaces) a codec that cannot represent the text; _decode_data uses the declared or "
              "default codec whenever it accepts the bytes, latin-1 only as fallback, and never raises; file_data_to_unicode returns LF-only text and leaves a "
@@ -73,7 +73,7 @@ PROPS["C16"] = {
 }
 PROPS["C15"] = {
     "sidecars": ["c15_scopes.py"],
-    "level": "proof",
+    "level": "other",
     "claim": "Proof level for two kernels: PyFunction.get_param_names returns exactly the parameters of every kind (positional-only, positional-or-keyword, "
              "*args, keyword-only, **kwargs) in definition order for every ast.arguments record (comprehension loops with invariants), and "
              "Scope.lookup / Scope._propagated_lookup compute the LEGB binding with enclosing class scopes skipped, for every scope chain (recursion verified "
@@ -84,7 +84,7 @@ PROPS["C15"] = {
 }
 PROPS["C01"] = {
     "sidecars": ["c01_collector.py", "c02_search.py"],
-    "level": "proof",
+    "level": "other",
     "claim": "Proof level for the text-edit kernel every rename goes through: ChangeCollector.get_changed returns the text with exactly the sorted, non-overlapping "
              "edit ranges replaced -- length, every kept gap, every replacement and the tail are pinned position by position (loop invariant over a ghost offset "
              "table, lemmas by induction) -- for every text and every edit list; and the whole-word scanner reports exactly the whole-word occurrences.  "
@@ -95,7 +95,7 @@ PROPS["C01"] = {
 }
 PROPS["C02"] = {
     "sidecars": ["c02_search.py"],
-    "level": "proof",
+    "level": "other",
     "claim": "Proof level for the textual layer: _TextualFinder._normal_search yields exactly the positions where the name occurs delimited by non-identifier "
              "characters, strictly increasing, none missing (gap formulation of completeness; the skip `current = found + len(name)` is justified by an exported "
              "lemma) -- for every source text and every identifier.  Exactness of the binding filter (same definition) is a bounded stand-in against a "
@@ -106,7 +106,7 @@ PROPS["C02"] = {
 }
 PROPS["C06"] = {
     "sidecars": ["c06_mapping.py", "c01_collector.py"],
-    "level": "proof",
+    "level": "other",
     "claim": "Proof level for the binding kernel: ArgumentMapping.__init__ binds positional arguments to the leading parameters, keeps surplus positionals in "
              "order, binds a keyword naming a parameter to it and keeps the others, and never touches an earlier binding -- for every definition and every call "
              "Python accepts (three nested loops with invariants; argument texts opaque); the rewritten text goes through the verified ChangeCollector.  "
@@ -117,7 +117,7 @@ PROPS["C06"] = {
 }
 PROPS["C04"] = {
     "sidecars": ["c04_inline.py", "c06_mapping.py"],
-    "level": "proof",
+    "level": "other",
     "claim": "Proof level for call-site independence and binding: _DefinitionGenerator._calculate_header leaves the per-definition parameter map unchanged (frame "
              "obligation over the heap model: a call site cannot disturb the next), and ArgumentMapping binds each call's arguments as Python does (C06 proof).  "
              "Body substitution, return replacement, name-conflict renaming and import fix-up are bounded stand-ins (pairs of call shapes against the interpreter; projects).",
@@ -126,7 +126,7 @@ PROPS["C04"] = {
 }
 PROPS["C13"] = {
     "sidecars": ["c13_caches.py"],
-    "level": "proof",
+    "level": "other",
     "claim": "Proof level for the per-operation cache contracts: after a change notification _FileListCacher either drops its list or the list already contained "
              "the changed file (so a write that creates a file cannot leave a stale list), every create/move/remove/validate notification drops it, and "
              "_ModuleCache._invalidate_resource removes exactly the changed resource and forgets all concluded data whenever a cached module or package "
@@ -147,7 +147,7 @@ PROPS["C09"] = {
 }
 PROPS["C07"] = {
     "sidecars": ["c07_selector.py"],
-    "level": "proof",
+    "level": "other",
     "claim": "Proof level for the selection kernel of 'remove unused imports': _OneTimeSelector keeps an import exactly when some dotted prefix of what it binds "
              "is wanted and not yet provided, and then marks every prefix as provided; nothing is ever unselected -- for every name set (loops with early return, "
              "existential postcondition).  That names keep resolving, exports stay available and the actions are idempotent is an exhaustive small-scope stand-in.",
@@ -156,7 +156,7 @@ PROPS["C07"] = {
 }
 PROPS["C08"] = {
     "sidecars": ["c08_source.py"],
-    "level": "proof",
+    "level": "other",
     "claim": "Proof level for the token-consumption kernel the annotating walker is built on: _Source.consume returns a range at or after the cursor that holds "
              "exactly the token text and leaves the cursor right after it (or raises MismatchedTokenError), _good_token is true exactly when the position is not "
              "inside a comment of the skipped text (two-sided, existential specification), _skip_comment advances to the next newline, consume_joined_string likewise "
